@@ -366,8 +366,18 @@ class StreamResponse(
         self._req = request
         writer = self._payload_writer = request._payload_writer
 
-        await self._prepare_headers()
-        await request._prepare_hook(self)
+        try:
+            await self._prepare_headers()
+            await request._prepare_hook(self)
+        except BaseException:
+            # Nothing has been written yet.  The response that reports this
+            # failure (500 page) is sent through the same StreamWriter: do not
+            # leave it in chunked / compressing / length-limited mode.
+            writer.chunked = False
+            writer.length = None
+            writer._compress = None  # type: ignore[attr-defined]
+            self._payload_writer = None
+            raise
         await self._write_headers()
 
         return writer
